@@ -54,9 +54,34 @@ def zabs(t):
 
 
 # domain of each transform (with the property's conditioning region), as constraints over the symbolic parameters and x
-def domain(name, P, C, x):
+class _T:
+    """view of a parameter dict whose entries may be symbolic (SR) or pinned concrete numbers: .e is always a z3 term"""
+    def __init__(self, d):
+        self.d = d
+
+    def __contains__(self, k):
+        return k in self.d
+
+    def __getitem__(self, k):
+        v = self.d[k]
+        return v if isinstance(v, SR) else SR(term(v))
+
+
+def pin_params(P, pin):
+    for k, v in (pin or {}).items():
+        if k in P:
+            P[k] = float(v)
+    return P
+
+
+def domain(name, P, C, x, light=False):
+    """domain of the transform + the conditioning region of C01.  light=True keeps only what the formulas need to be defined (x inside the
+    domain, away from seams) and drops every restriction on the PARAMETERS beyond their declared bounds and the conditioning region:
+    used to check that the declared bounds themselves keep the transform increasing"""
     x = x.e
+    P, C = _T(P), _T(C)
     cs = [x >= -1000, x <= 1000]
+    heavy = (lambda *c: []) if light else (lambda *c: list(c))
     if name == 'Logit':
         lower, delta = P['lower'].e, E(P['logdelta'].e)
         # exp(-10) and exp(10) bracket delta (true numeric facts the uninterpreted EXP does not know)
@@ -66,26 +91,26 @@ def domain(name, P, C, x):
     elif name in ('BoxCox2', 'BoxCox1lam', 'BoxCox1nu'):
         nu = (P['nu'] if 'nu' in P else C['nu']).e
         lam = (P['lam'] if 'lam' in P else C['lam']).e
-        cs += [x + nu >= q(0.001), x + nu <= 1000, zabs(lam * L(x + nu)) <= q(13.8)]
+        cs += [x + nu >= q(0.001), x + nu <= 1000] + heavy(zabs(lam * L(x + nu)) <= q(13.8))
     elif name == 'BoxCox2sym':
         nu, lam = P['nu'].e, P['lam'].e
         ax = zabs(x)
-        cs += [ax >= q(0.001), nu >= q(0.001), zabs(lam * L(ax + nu)) <= q(13.8), zabs(lam * L(nu)) <= q(13.8)]
+        cs += [ax >= q(0.001)] + heavy(nu >= q(0.001), zabs(lam * L(ax + nu)) <= q(13.8), zabs(lam * L(nu)) <= q(13.8))
     elif name == 'YeoJohnson':
         nu, sc, lam = P['nu'].e, P['scale'].e, P['lam'].e
         w = nu + sc * x
-        cs += [z3.Or(w >= q(1e-6 + 1e-10), w <= -q(1e-6)), zabs(w) <= 1000, sc >= q(0.001),
-               zabs(lam * L(zabs(w) + 1)) <= q(13.8), zabs((2 - lam) * L(zabs(w) + 1)) <= q(13.8)]
+        cs += [z3.Or(w >= q(1e-6 + 1e-10), w <= -q(1e-6)), zabs(w) <= 1000] + heavy(
+            sc >= q(0.001), zabs(lam * L(zabs(w) + 1)) <= q(13.8), zabs((2 - lam) * L(zabs(w) + 1)) <= q(13.8))
     elif name == 'LogSinh':
         a, b, xmax = E(P['loga'].e), E(P['logb'].e), C['xmax'].e
         w = a + b * x / xmax
-        cs += [w >= q(0.0001), w <= 20, xmax >= q(0.001), xmax <= 1000]
+        cs += [w >= q(0.0001), w <= 20] + heavy(xmax >= q(0.001), xmax <= 1000)
     elif name == 'Sinh':
         nu, sc = P['nu'].e, P['scale'].e
-        cs += [sc >= q(0.001), zabs((x - nu) * sc) <= 1000]
+        cs += [zabs((x - nu) * sc) <= 1000] + heavy(sc >= q(0.001))
     elif name == 'Manly':
         lam, xmax = P['lam'].e, C['xmax'].e
-        cs += [z3.Or(lam == 0, zabs(lam) >= q(0.001)), xmax >= q(0.001), xmax <= 1000, zabs(lam * x / xmax) <= q(13.8)]
+        cs += heavy(z3.Or(lam == 0, zabs(lam) >= q(0.001)), xmax >= q(0.001), xmax <= 1000, zabs(lam * x / xmax) <= q(13.8))
     return cs
 
 
@@ -93,12 +118,13 @@ class RoundTrip(Case):
     prop = 'C01'
     functions = []
 
-    def __init__(self, clsname, ctor=None, n=1, via_get=False, fresh_backward=False):
+    def __init__(self, clsname, ctor=None, n=1, via_get=False, fresh_backward=False, pin=None):
         self.cls, self.ctor, self.n, self.via_get = clsname, dict(ctor or {}), n, via_get
         self.fresh_backward = fresh_backward
-        self.name = 'roundtrip%s:%s%s%s' % ('-fresh-backward' if fresh_backward else '', clsname, '(%s)' % ','.join('%s=%s' % kv for kv in sorted(self.ctor.items())) if self.ctor else '',
-                                         ':get_transform' if via_get else '')
-        self.params = dict(cls=clsname, ctor=self.ctor, n=n, via_get=via_get, fresh_backward=fresh_backward)
+        self.pin = dict(pin or {})      # parameters / constants fixed to concrete values (the rest stays symbolic)
+        self.name = 'roundtrip%s:%s%s%s%s' % ('-fresh-backward' if fresh_backward else '', clsname, '(%s)' % ','.join('%s=%s' % kv for kv in sorted(self.ctor.items())) if self.ctor else '',
+                                           ':get_transform' if via_get else '', '[%s]' % ','.join('%s=%s' % kv for kv in sorted(self.pin.items())) if self.pin else '')
+        self.params = dict(cls=clsname, ctor=self.ctor, n=n, via_get=via_get, fresh_backward=fresh_backward, pin=self.pin)
         self.functions = ['hydrodiy.stat.transform.%s.forward/backward/backward_censored' % clsname]
 
     def modules(self):
@@ -106,8 +132,8 @@ class RoundTrip(Case):
 
     def inputs(self):
         tr = make(self.cls, self.ctor)
-        P = sym_vector(tr.params, 'p')
-        C = sym_vector(tr.constants, 'c')
+        P = pin_params(sym_vector(tr.params, 'p'), self.pin)
+        C = pin_params(sym_vector(tr.constants, 'c'), self.pin)
         if self.cls == 'Softmax':
             xs = [SR(z3.Real('x%d' % i)) for i in range(2)]
             for v in xs:
@@ -183,7 +209,9 @@ def cases(tier):
     # non-default constructor options
     out += [RoundTrip('Log', dict(base=10.0)), RoundTrip('Log', dict(mininu=0.5)), RoundTrip('BoxCox2', dict(minilam=-1.0)),
             RoundTrip('BoxCox2', dict(mininu=0.25)), RoundTrip('BoxCox1nu', dict(minilam=-1.0)), RoundTrip('BoxCox2sym', dict(minilam=-1.0)),
-            RoundTrip('Reciprocal', dict(mininu=0.5)), RoundTrip('BoxCox2', via_get=True), RoundTrip('Log', dict(base=2.0), via_get=True)]
+            RoundTrip('Reciprocal', dict(mininu=0.5)), RoundTrip('BoxCox2', via_get=True), RoundTrip('Log', dict(base=2.0), via_get=True),
+            # a = b = 1 exactly: the domain guard of LogSinh is then decided in linear arithmetic (no EXP abstraction in the way)
+            RoundTrip('LogSinh', pin=dict(loga=0.0, logb=0.0))]
     if tier == 'thorough':
         out += [RoundTrip(n, n=2) for n in names if n != 'Softmax']
         out += [RoundTrip('BoxCox1lam', dict(minilam=-1.0)), RoundTrip('YeoJohnson', via_get=True), RoundTrip('Log', dict(base=0.5))]
